@@ -21,7 +21,7 @@ ASSUMPTIONS = [
     "a request naming a module of another project must raise ModuleOwnershipError; with single operands nothing may change; with list operands only the pairs requested before the foreign one may have been applied and the tables must stay consistent",
     "slot order inside the tables is not part of C07 (C08 covers persistence); only edge set + mutual consistency are judged",
 ]
-REQUIRED_COUNTERS = ["ops_applied", "consistency_evaluations", "cross_project_refusals"]
+REQUIRED_COUNTERS = ["ops_applied", "consistency_evaluations", "cross_project_refusals", "operator_chains"]
 WORKERS = {"quick": 4, "thorough": 16}
 
 
@@ -277,6 +277,63 @@ def random_sequences(res, rng, n_seq, max_n, max_len):
             res.sample({"n": n, "sequence": [[h[0][0], [list(x) for x in h[0][1]], h[1][0], [list(x) for x in h[1][1]], h[2]] for h in history[:5]]})
 
 
+def operator_chains(res, rng, n_seq, max_n):
+    """`a >> [b, c] >> d << e ...`: each operator returns its right operand in chainable form, so a chain of k operators is
+    k requests, each between the previous right operand and the next one.  Judged against the same edge model, plus the
+    value every operator returns."""
+    import operator
+    from rv.modules.module import ModuleList
+    for s in range(n_seq):
+        n = rng.randint(3, max_n)
+        p = build_project(n)
+        for _ in range(rng.randint(0, 4)):      # some links exist already
+            a, b = rng.randrange(n), rng.randrange(n)
+            p.connect(p.modules[a], p.modules[b])
+        k = rng.randint(2, 5)
+        operands, ops = [], []
+        for i in range(k + 1):
+            if rng.random() < 0.5:
+                operands.append(("single", ((rng.randrange(n), False),)))
+            else:
+                operands.append(("list", tuple((j, False) for j in rng.sample(range(n), rng.randint(1, min(n, 3))))))
+            if i < k:
+                ops.append(rng.choice((">>", "<<")))
+        case = {"n": n, "chain": [[o[0], [x[0] for x in o[1]]] for o in operands], "ops": ops, "initial": sorted(map(list, monitors.edge_multiset(p)))}
+        res.case((n, tuple(operands), tuple(ops), state_of(p)))
+        res.count("operator_chains")
+        res.hist("chain_lengths", k)
+        want = set(monitors.edge_multiset(p))
+        for i, op in enumerate(ops):
+            F, T = (operands[i], operands[i + 1]) if op == ">>" else (operands[i + 1], operands[i])
+            want, _ = model_apply(want, F, T)
+        try:
+            cur = resolve(p, [], operands[0], as_modulelist=True)
+            for i, op in enumerate(ops):
+                nxt = resolve(p, [], operands[i + 1])
+                ret = (operator.rshift if op == ">>" else operator.lshift)(cur, nxt)
+                res.count("operator_return_values_checked")
+                if isinstance(nxt, list):
+                    good = isinstance(ret, ModuleList) and len(ret) == len(nxt) and all(x is y for x, y in zip(ret, nxt))
+                else:
+                    good = ret is nxt
+                if not good:
+                    res.violation(f"C07:operator-returns-wrong-operand:{'list' if isinstance(cur, list) else 'single'}{op}{'list' if isinstance(nxt, list) else 'single'}",
+                                  f"chain {case}: operator {i} ({op}) returned {ret!r}, not its right operand {nxt!r}", case)
+                    break
+                cur = ret
+        except Exception as e:
+            res.violation(f"C07:exception:{type(e).__name__}", f"chain {case} raised {e!r}", case)
+            continue
+        probs = monitors.links_consistent(p)
+        res.count("consistency_evaluations")
+        if probs:
+            res.violation("C07:inconsistent-tables", f"after chain {case}: {probs[:3]}", case)
+            continue
+        got = set(monitors.edge_multiset(p))
+        if got != want:
+            res.violation("C07:chain-wrong-edges", f"after chain {case}: missing {sorted(want - got)}, extra {sorted(got - want)}", case)
+
+
 def mixed_sequences(res, rng, n_seq, max_len):
     """Link requests interleaved with the other things a project lives through: new modules (appended or filling an empty
     position), empty positions, saving (object kept), saving + loading (continue on the loaded project).  Modules are
@@ -394,6 +451,7 @@ def run_shard(spec_, res):
         mixed_sequences(res, rng, spec_["n_seq"], spec_["max_len"])
     else:
         random_sequences(res, rng, spec_["n_seq"], spec_["max_n"], spec_["max_len"])
+        operator_chains(res, rng, spec_["n_seq"] // 3, spec_["max_n"])
     if spec_["tier"] == "thorough" and spec_["part"] == "bfs" and spec_["n"] == 3 and spec_["slice"][0] == 0:
         from ._repo_suite import ambient_under_repo_tests
         ambient_under_repo_tests(res, PROPERTY, ["links_consistent"])
